@@ -223,6 +223,10 @@ pub fn main(args: &[String]) {
     // one sequence over all functions where GC removes the LAST / the FIRST function of the input (the end_sequence row / the sequence base then has no image)
     if let Ok(b) = wat::parse_str("(module (func (export \"a\") (result i32) i32.const 1 i32.const 2 drop) (func (export \"b\") (result i32) i32.const 3) (func $unused_last (result i32) i32.const 4 i32.const 5 drop))") { inputs.push(("last-function-unused".into(), b)); }
     if let Ok(b) = wat::parse_str("(module (func $unused_first (result i32) i32.const 4 i32.const 5 drop) (func (export \"a\") (result i32) i32.const 1 i32.const 2 drop) (func (export \"b\") (result i32) i32.const 3))") { inputs.push(("first-function-unused".into(), b)); }
+    // many IMPORTED functions next to few local ones: imported + local crosses the count-LEB boundary (128) while the number of code entries does not
+    { let mut wat = String::from("(module\n"); for i in 0..126 { wat += &format!("(import \"env\" \"f{}\" (func))\n", i); }
+      for i in 0..3 { wat += &format!("(func (export \"l{}\") (result i32) i32.const {} i32.const 1 i32.add)\n", i, i); } wat += ")";
+      if let Ok(b) = wat::parse_str(&wat) { inputs.push(("126-imported-3-local-functions".into(), b)); } }
     let n_fixed_before_boundary = inputs.len();
     inputs.extend(c11::boundary_bodies());
     let n_fixed = inputs.len();
